@@ -3,7 +3,10 @@
 Model: coq/theories/Proc/Model.v (interprets the control skeleton of run.py, regenerated
 by translate/run_skeleton.py); theorems: Props/C17.v.
 Tie, checked on every run: (i) skeleton equality (C17_skeleton_tie fails to build when
-run.py / multiprocessing_logging.py change shape); (ii) the REAL matrix: run_in_process under
+run.py / multiprocessing_logging.py change shape); (i') regenerated source with proofs: translate/proc_helpers.py ->
+Gen/ProcHelpers.v (MultiprocessingLogging, _listen, _initializer, RunningProcess.*, _call_all, _call, run_in_process,
+_run as statement trees), interpreted by Proc/HelperInterp.v; Proc/HelperTie.v proves the C17_tie_* theorems for all
+environments, incl. the simulation of the skeleton interpreter of Proc/Model.v; (ii) the REAL matrix: run_in_process under
 the spawn context, outcomes x signals x instants x {log collection} x {initializer}, each in a
 real child process (harness/proc_runner.py, harness/proc_workers.py); the observation of every
 run is compared with the model's prediction inside Coq (cases.v, vm_compute).
